@@ -198,6 +198,16 @@ class Effects:
             if not isinstance(n, ast.For):
                 continue
             it = strip_sites(host_fa.term_of(n.iter, host_fa.cfg.node_of(n)))
+            prefiltered = False
+            src_ = ("app", ("global", "ast.iter_fields"), (("param", host_param),), ())
+            if it[0] == "comp" and it[1] in ("GeneratorExp", "ListComp") and len(it[3]) == 1 and it[3][0][0] == src_:
+                # the (field, value) pairs drawn from a generator that keeps exactly the list-valued fields
+                el_ = ("elem", src_)
+                ident = it[2] in (el_, ("tuple", (("index", el_, 0), ("index", el_, 1))))
+                want_c = (("app", ("global", "builtins.isinstance"), (("index", el_, 1), ("global", "builtins.list")), ()),)
+                if ident and tuple(it[3][0][1]) == want_c:
+                    prefiltered = True
+                    it = src_
             if not (it[0] == "app" and it[1] == ("global", "ast.iter_fields") and it[2] == (("param", host_param),)):
                 continue
             if not (isinstance(n.target, ast.Tuple) and len(n.target.elts) == 2 and all(isinstance(e, ast.Name) for e in n.target.elts)):
@@ -225,6 +235,9 @@ class Effects:
                         continue
                 conds = [(x_, p_) for x_, p_ in _Facts(host_fa, s, expand=False).atoms if any(y_ is x_ or True for y_ in [0]) and any(isinstance(z_, ast.Name) and z_.id in (vvar, fvar) for z_ in ast.walk(x_))]
                 is_list = [(x_, p_) for x_, p_ in conds if isinstance(x_, ast.Call) and isinstance(x_.func, ast.Name) and x_.func.id == "isinstance" and len(x_.args) == 2 and isinstance(x_.args[0], ast.Name) and x_.args[0].id == vvar and isinstance(x_.args[1], ast.Name) and x_.args[1].id == "list" and p_]
+                if prefiltered and not conds:
+                    found = True
+                    continue
                 if len(is_list) != 1 or len(conds) != 1:
                     return False, "list fields are copied under a condition other than isinstance(value, list)"
                 found = True
@@ -232,6 +245,12 @@ class Effects:
             if found and not host_fa.cfg.dominates(host_fa.cfg.node_of(n), host_fa.cfg.node_of(at_call)):
                 return False, "list-field copy loop does not dominate the delegation"
         if not found:
+            # a re-binding of list fields that is there but written in a way this reader does not follow (the fields
+            # drawn from a generator, a helper that yields them, ..) is not "missing": say so instead of judging it
+            for lp_ in [x for x in own_nodes(host) if isinstance(x, (ast.For, ast.While))]:
+                for c_ in ast.walk(lp_):
+                    if isinstance(c_, ast.Call) and isinstance(c_.func, ast.Name) and c_.func.id == "setattr" and len(c_.args) == 3 and isinstance(c_.args[2], ast.Call) and isinstance(c_.args[2].func, ast.Name) and c_.args[2].func.id == "list":
+                        raise AnalysisError(f"{host.name} re-binds list fields of its copy in a loop this analysis cannot read (not `for f, v in ast.iter_fields(node): if isinstance(v, list): setattr(copy, f, list(v))`): whether every list field gets a new list is not decided")
             return False, "no loop re-binding every list field of the copy to a new list (the in-place child-list edits of the base generic_visit would land on the original's lists)"
         # result must be the delegation's result
         rt = strip_sites(fa.return_term())
